@@ -126,10 +126,19 @@ def sortedMounts : List Oci.Mount → Bool
   | [_] => true
   | a :: b :: r => !Mounts.mountLt b a && sortedMounts (b :: r)
 
-/-- every mount comes after all mounts of its parent directories -/
+/-- `p` is a CLEANED path and the directory `c` denotes (`filepath.Clean c`) lies strictly below
+    it; when `p` is the root, `c` must be written with a leading `/`.  Exactly the hypotheses of
+    theorem `C13_parent_first`: only the parent has to be cleaned. -/
+def isCleanParentOf (p c : Str) : Bool :=
+  Mounts.cleanPath p == p && isAncestor p (Mounts.cleanPath c) &&
+    (p != ['/'] || (match c with | '/' :: _ => true | _ => false))
+
+/-- every mount comes after all mounts of its (cleaned) parent directories; a mount whose own
+    destination is not a cleaned path (`/data/`, `//x`) is still required to follow its cleaned
+    parents, it just cannot itself serve as a parent here (witness `guard_unclean_child_first`) -/
 def parentsFirst : List Oci.Mount → Bool
   | [] => true
-  | m :: r => r.all (fun x => !isAncestor x.destination m.destination) && parentsFirst r
+  | m :: r => r.all (fun x => !isCleanParentOf x.destination m.destination) && parentsFirst r
 
 /-! ### The families -/
 
@@ -293,8 +302,6 @@ def guardViolated (s : Oci.Spec) (a : Adjustment) : Option String :=
   if !envWF s.env && !a.env.isEmpty then some "guard:env:original-not-NAME=value-or-duplicate"
   else if !envAdjWF a.env then some "guard:env:key-empty-or-with-equals"
   else if !decide (NodupKeys Oci.Mount.destination s.mounts) then some "guard:mounts:duplicate-destination-in-original"
-  else if !a.mounts.isEmpty && !((s.mounts.map (·.destination)) ++ (a.mounts.filter (fun m => !isMarked m.destination)).map (·.destination)).all isCleanAbs
-    then some "guard:mounts:destination-not-clean-absolute"
   else if !decide (NodupKeys Oci.Device.path s.devices) then some "guard:devices:duplicate-path-in-original"
   else if a.args = [[]] then some "guard:args:bare-update-marker"
   else none
